@@ -292,10 +292,14 @@ def per_path(ctx, po, sh):
                 dcase = ev(t.default_case)
                 any_lp = any(e.get('litpat') for _, e in exp_arms)
                 ghost_variant = any((orc.winner(v, kind, fallible, ty) or (None,))[0] == 'ghost' for v in po.spec.members)
-                default_designated = dcase is not None and ((is_from and (any_lp or g is not None)) or ((not is_from) and ghost_variant))
+                # the statement: source values covered by no variant evaluate the `_ =>` case.  Converting FROM the counterpart such values may
+                # always exist (its variants are not known to the derive); converting INTO it they exist exactly when a variant is skipped
+                default_designated = dcase is not None and (is_from or ghost_variant)
                 got_heads = [norm(p) for p, _ in rest]
                 want_heads = want_rest + (['_'] if default_designated else [])
                 if got_heads != want_heads:
+                    if got_heads + ['_'] == want_heads and is_from and not (any_lp or g is not None):
+                        why = ('default-case-dropped', 'the instruction declares `_ => ..` but the %s match has no default arm (no literal / pattern / enum-level ghosts present)' % kind); break
                     why = ('extra-arms', 'after the variant arms: %r, expected %r' % (got_heads, want_heads)); break
             if why:
                 break
@@ -305,7 +309,7 @@ def per_path(ctx, po, sh):
             nat = ctx.replay.run(text)
             if nat['status'] == 'ok' and expander.flat_text(nat['out']) == expander.flat(po.tokens):
                 cat = 'unbound-binding' if 'on the right but binds only' in why[1] else ('payload' if ' payload ' in why[1] else ('bindings' if ' binds ' in why[1] else ('pattern' if 'arm pattern' in why[1] else ('constructor' if 'constructs' in why[1] else 'other'))))
-                cls = '%s/%s' % (why[0], cat)
+                cls = '%s/%s' % (why[0], cat) if why[0] != 'default-case-dropped' else 'default-case-dropped/from-without-literal-pattern-ghosts'
                 ctx.violation('enum-arms', cls, why[1], {'input': text, 'output': nat['out'][:2000]})
             else:
                 ctx.inconclusive.append('C02 counterexample does not reproduce natively: %s' % text)
